@@ -1,5 +1,7 @@
 (* If every translated function follows the hand-off discipline, no write ever targets a
-   buffer the consumer holds: for all event sequences, all pool behaviours, all Finish timings. *)
+   buffer the consumer holds, and no array is ever held through two views: for all event
+   sequences, all loop iteration counts, all pool behaviours, all Finish timings (one view at a
+   time: partial hand-back included). *)
 From Vx Require Import base.Prelude base.ListX model.ParserOwnTypes gen.GenOwn model.ParserOwn.
 
 Lemma mem_In x l : mem x l = true <-> In x l.
@@ -13,7 +15,17 @@ Lemma mem_false x l : mem x l = false <-> ~ In x l.
 Proof. rewrite <- mem_In. destruct (mem x l); split; congruence. Qed.
 
 Lemma bkind_eqb_eq a b : bkind_eqb a b = true <-> a = b.
-Proof. destruct a, b; cbn; split; congruence. Qed.
+Proof.
+  destruct a, b; cbn; split; try congruence.
+  - intros H. apply Nat.eqb_eq in H. now subst.
+  - intros H. injection H as ->. apply Nat.eqb_refl.
+Qed.
+
+Lemma bkind_eqb_refl k : bkind_eqb k k = true.
+Proof. now apply bkind_eqb_eq. Qed.
+
+Lemma bkind_eqb_neq a b : a <> b -> bkind_eqb a b = false.
+Proof. intros H. destruct (bkind_eqb a b) eqn:E; [apply bkind_eqb_eq in E; contradiction|reflexivity]. Qed.
 
 Lemma kmem_In k l : kmem k l = true <-> In k l.
 Proof.
@@ -25,8 +37,8 @@ Qed.
 Lemma kdel_In k k' l : In k' (kdel k l) <-> In k' l /\ k' <> k.
 Proof.
   unfold kdel. rewrite filter_In. split; intros [H1 H2]; split; auto.
-  - intros E. subst. rewrite (proj2 (bkind_eqb_eq k k) eq_refl) in H2. discriminate.
-  - destruct (bkind_eqb k' k) eqn:E; [apply bkind_eqb_eq in E; contradiction|reflexivity].
+  - intros E. subst. rewrite bkind_eqb_refl in H2. discriminate.
+  - now rewrite bkind_eqb_neq.
 Qed.
 
 Lemma remove_id_In x y l : In y (remove_id x l) <-> In y l /\ y <> x.
@@ -34,6 +46,43 @@ Proof.
   unfold remove_id. rewrite filter_In. split; intros [H1 H2]; split; auto.
   - intros E. subst. rewrite Z.eqb_refl in H2. discriminate.
   - destruct (y =? x) eqn:E; [apply Z.eqb_eq in E; contradiction|reflexivity].
+Qed.
+
+(* one view leaves: what stays was there; without duplicates exactly the others stay *)
+Lemma remove_one_sub x y l : In y (remove_one x l) -> In y l.
+Proof.
+  induction l as [|z t IH]; cbn; [tauto|]. destruct (z =? x); [now right|].
+  intros [E|H]; [now left|right; now apply IH].
+Qed.
+
+Lemma remove_one_In x y l : NoDup l -> (In y (remove_one x l) <-> In y l /\ y <> x).
+Proof.
+  induction l as [|z t IH]; intros N; cbn; [tauto|].
+  inversion N as [|? ? Hz Nt]; subst.
+  destruct (z =? x) eqn:E.
+  - apply Z.eqb_eq in E. subst. split.
+    + intros H. split; [now right|]. intros ->. contradiction.
+    + intros [[E|H] Hne]; [congruence|assumption].
+  - apply Z.eqb_neq in E. cbn. rewrite (IH Nt). split.
+    + intros [->|[H Hne]]; [split; [now left|assumption]|split; [now right|assumption]].
+    + intros [[->|H] Hne]; [now left|right; now split].
+Qed.
+
+Lemma remove_one_NoDup x l : NoDup l -> NoDup (remove_one x l).
+Proof.
+  induction l as [|z t IH]; intros N; cbn; [constructor|].
+  inversion N as [|? ? Hz Nt]; subst.
+  destruct (z =? x); [assumption|]. constructor; [|now apply IH].
+  intros H. apply Hz. now apply remove_one_sub in H.
+Qed.
+
+Lemma nodup_app (a b : list Z) :
+  NoDup a -> NoDup b -> (forall x, In x a -> ~ In x b) -> NoDup (a ++ b).
+Proof.
+  induction a as [|x a IH]; intros Na Nb D; cbn; [assumption|].
+  inversion Na as [|? ? Hx Na']; subst. constructor.
+  - intros H. apply in_app_or in H as [H|H]; [contradiction|]. apply (D x); [now left|assumption].
+  - apply IH; try assumption. intros y Hy. apply D. now right.
 Qed.
 
 (* the invariant while a function runs, relative to the scanner's two lists *)
@@ -48,62 +97,59 @@ Record linv (s : ost) (aliased given : list bkind) : Prop := {
   li_out_lt : forall x, In x (outgoing s) -> x < next_fresh s;
   li_pc : forall x, In x (pool s) -> ~ In x (consumer s);
   li_po : forall x, In x (pool s) -> ~ In x (outgoing s);
-  li_co : forall x, In x (consumer s) -> ~ In x (outgoing s)
+  li_co : forall x, In x (consumer s) -> ~ In x (outgoing s);
+  (* no array is held through two views *)
+  li_nd_out : NoDup (outgoing s);
+  li_nd_cons : NoDup (consumer s);
+  li_nd_pool : NoDup (pool s)
 }.
 
 Lemma set_cur_same s k v : set_cur s k v k = v.
-Proof. unfold set_cur. now rewrite (proj2 (bkind_eqb_eq k k) eq_refl). Qed.
+Proof. unfold set_cur. now rewrite bkind_eqb_refl. Qed.
 
 Lemma set_cur_other s k v k' : k' <> k -> set_cur s k v k' = cur s k'.
-Proof.
-  intros H. unfold set_cur. destruct (bkind_eqb k' k) eqn:E; [apply bkind_eqb_eq in E; contradiction|reflexivity].
-Qed.
+Proof. intros H. unfold set_cur. now rewrite bkind_eqb_neq. Qed.
 
 (* re-pointing field k to an id that nobody else holds *)
 Lemma replace_linv s k v aliased given pool' nf' :
   linv s aliased given ->
   (forall k', cur s k' <> v) -> ~ In v (consumer s) -> ~ In v (outgoing s) -> ~ In v pool' ->
   v < nf' -> next_fresh s <= nf' ->
-  (forall x, In x pool' -> In x (pool s)) ->
+  (forall x, In x pool' -> In x (pool s)) -> NoDup pool' ->
   linv {| cur := set_cur s k v; outgoing := outgoing s; consumer := consumer s; pool := pool'; next_fresh := nf' |}
        (kdel k aliased) (kdel k given).
 Proof.
-  intros I Hne Hc Ho Hp Hlt Hnf Hsub.
+  intros I Hne Hc Ho Hp Hlt Hnf Hsub Hnd.
+  assert (D : forall k', k' = k \/ k' <> k).
+  { intros k'. destruct (bkind_eqb k' k) eqn:E; [left; now apply bkind_eqb_eq|right].
+    intros ->. rewrite bkind_eqb_refl in E. discriminate. }
   constructor; cbn [cur outgoing consumer pool next_fresh].
-  - intros k' H. destruct (bkind_eqb k' k) eqn:E.
-    + apply bkind_eqb_eq in E. subst. rewrite set_cur_same in H. contradiction.
-    + assert (k' <> k) by (intros ->; rewrite (proj2 (bkind_eqb_eq k k) eq_refl) in E; discriminate).
-      rewrite set_cur_other in H by assumption. apply kdel_In. split; [now apply (li_cons _ _ _ I)|assumption].
-  - intros k' H. destruct (bkind_eqb k' k) eqn:E.
-    + apply bkind_eqb_eq in E. subst. rewrite set_cur_same in H. contradiction.
-    + assert (k' <> k) by (intros ->; rewrite (proj2 (bkind_eqb_eq k k) eq_refl) in E; discriminate).
-      rewrite set_cur_other in H by assumption. apply kdel_In. split; [now apply (li_out _ _ _ I)|assumption].
-  - intros k1 k2 H.
-    destruct (bkind_eqb k1 k) eqn:E1; destruct (bkind_eqb k2 k) eqn:E2.
-    + apply bkind_eqb_eq in E1, E2. congruence.
-    + apply bkind_eqb_eq in E1. subst.
-      assert (k2 <> k) by (intros ->; rewrite (proj2 (bkind_eqb_eq k k) eq_refl) in E2; discriminate).
-      rewrite set_cur_same, set_cur_other in H by assumption. exfalso. now apply (Hne k2).
-    + apply bkind_eqb_eq in E2. subst.
-      assert (k1 <> k) by (intros ->; rewrite (proj2 (bkind_eqb_eq k k) eq_refl) in E1; discriminate).
-      rewrite set_cur_same, set_cur_other in H by assumption. exfalso. now apply (Hne k1).
-    + assert (k1 <> k) by (intros ->; rewrite (proj2 (bkind_eqb_eq k k) eq_refl) in E1; discriminate).
-      assert (k2 <> k) by (intros ->; rewrite (proj2 (bkind_eqb_eq k k) eq_refl) in E2; discriminate).
-      rewrite !set_cur_other in H by assumption. now apply (li_inj _ _ _ I).
-  - intros k' H. destruct (bkind_eqb k' k) eqn:E.
-    + apply bkind_eqb_eq in E. subst. rewrite set_cur_same in H. contradiction.
-    + assert (k' <> k) by (intros ->; rewrite (proj2 (bkind_eqb_eq k k) eq_refl) in E; discriminate).
-      rewrite set_cur_other in H by assumption. apply (li_pool _ _ _ I k'). now apply Hsub.
-  - intros k'. destruct (bkind_eqb k' k) eqn:E.
-    + apply bkind_eqb_eq in E. subst. now rewrite set_cur_same.
-    + assert (k' <> k) by (intros ->; rewrite (proj2 (bkind_eqb_eq k k) eq_refl) in E; discriminate).
-      rewrite set_cur_other by assumption. pose proof (li_cur_lt _ _ _ I k'). lia.
+  - intros k' H. destruct (D k') as [->|Hk].
+    + rewrite set_cur_same in H. contradiction.
+    + rewrite set_cur_other in H by assumption. apply kdel_In. split; [now apply (li_cons _ _ _ I)|assumption].
+  - intros k' H. destruct (D k') as [->|Hk].
+    + rewrite set_cur_same in H. contradiction.
+    + rewrite set_cur_other in H by assumption. apply kdel_In. split; [now apply (li_out _ _ _ I)|assumption].
+  - intros k1 k2 H. destruct (D k1) as [->|H1]; destruct (D k2) as [->|H2].
+    + reflexivity.
+    + rewrite set_cur_same, set_cur_other in H by assumption. exfalso. now apply (Hne k2).
+    + rewrite set_cur_same, set_cur_other in H by assumption. exfalso. now apply (Hne k1).
+    + rewrite !set_cur_other in H by assumption. now apply (li_inj _ _ _ I).
+  - intros k' H. destruct (D k') as [->|Hk].
+    + rewrite set_cur_same in H. contradiction.
+    + rewrite set_cur_other in H by assumption. apply (li_pool _ _ _ I k'). now apply Hsub.
+  - intros k'. destruct (D k') as [->|Hk].
+    + now rewrite set_cur_same.
+    + rewrite set_cur_other by assumption. pose proof (li_cur_lt _ _ _ I k'). lia.
   - intros x H. pose proof (li_cons_lt _ _ _ I x H). lia.
   - intros x H. pose proof (li_pool_lt _ _ _ I x (Hsub x H)). lia.
   - intros x H. pose proof (li_out_lt _ _ _ I x H). lia.
   - intros x H. apply (li_pc _ _ _ I). now apply Hsub.
   - intros x H. apply (li_po _ _ _ I). now apply Hsub.
   - apply (li_co _ _ _ I).
+  - apply (li_nd_out _ _ _ I).
+  - apply (li_nd_cons _ _ _ I).
+  - exact Hnd.
 Qed.
 
 Lemma fresh_linv s k aliased given :
@@ -117,25 +163,29 @@ Proof.
   - intros H. pose proof (li_out_lt _ _ _ I _ H). lia.
   - intros H. pose proof (li_pool_lt _ _ _ I _ H). lia.
   - auto.
+  - apply (li_nd_pool _ _ _ I).
 Qed.
 
 (* one action under the scanner *)
-Lemma step_linv s a c aliased given t :
-  linv s aliased given -> handoff_scan (a :: t) aliased given = true ->
-  write_safe s a = true /\
-  exists aliased' given', linv (oact_step s a c) aliased' given' /\ handoff_scan t aliased' given' = true.
+Lemma step_linv s a c aliased given al' gi' :
+  linv s aliased given -> scan_step a aliased given = Some (al', gi') ->
+  write_safe s a = true /\ linv (oact_step s a c) al' gi'.
 Proof.
-  intros I H. destruct a as [k| |k src|k]; cbn [handoff_scan] in H.
-  - (* alias *) apply andb_prop in H as [Hg H]. apply negb_true_iff in Hg.
-    split; [reflexivity|]. exists (k :: aliased), given. split; [|assumption].
+  intros I H. destruct a as [k| |k src|k]; cbn [scan_step] in H.
+  - (* alias *)
+    destruct (negb (kmem k given) && negb (kmem k aliased)) eqn:G; [|discriminate].
+    injection H as <- <-. apply andb_prop in G as [Hg Ha]. apply negb_true_iff in Hg, Ha.
+    split; [reflexivity|].
     assert (Hng : ~ In k given) by (intros Hin; apply kmem_In in Hin; congruence).
+    assert (Hna : ~ In k aliased) by (intros Hin; apply kmem_In in Hin; congruence).
     constructor; cbn [oact_step cur outgoing consumer pool next_fresh];
       try apply I.
     + intros k' [E|Hin]; [left; symmetry; now apply (li_inj _ _ _ I)|right; now apply (li_out _ _ _ I)].
     + intros x [<-|Hin]; [apply (li_cur_lt _ _ _ I)|now apply (li_out_lt _ _ _ I)].
     + intros x Hp [<-|Hin]; [now apply (li_pool _ _ _ I k)|now apply (li_po _ _ _ I x)].
     + intros x Hc [<-|Hin]; [apply Hng; now apply (li_cons _ _ _ I)|now apply (li_co _ _ _ I x)].
-  - (* emit *) split; [reflexivity|]. exists [], (aliased ++ given). split; [|assumption].
+    + constructor; [|apply (li_nd_out _ _ _ I)]. intros Hin. apply Hna. now apply (li_out _ _ _ I).
+  - (* emit *) injection H as <- <-. split; [reflexivity|].
     constructor; cbn [oact_step cur outgoing consumer pool next_fresh]; try apply I.
     + intros k Hin. apply in_app_or in Hin as [Hin|Hin]; apply in_or_app;
         [left; now apply (li_out _ _ _ I)|right; now apply (li_cons _ _ _ I)].
@@ -145,47 +195,114 @@ Proof.
     + intros x Hp Hin. apply in_app_or in Hin as [Hin|Hin]; [now apply (li_po _ _ _ I x)|now apply (li_pc _ _ _ I x)].
     + intros x _ [].
     + intros x _ [].
-  - (* replace *) split; [reflexivity|]. destruct src; cbn [oact_step].
-    + exists (kdel k aliased), (kdel k given). split; [now apply fresh_linv|assumption].
+    + constructor.
+    + apply nodup_app; [apply (li_nd_out _ _ _ I)|apply (li_nd_cons _ _ _ I)|].
+      intros x Hx Hc. exact (li_co _ _ _ I x Hc Hx).
+  - (* replace *) split; [reflexivity|]. destruct src; cbn [oact_step]; injection H as <- <-.
+    + now apply fresh_linv.
     + destruct c as [id|]; [destruct (mem id (pool s)) eqn:Em|].
-      * exists (kdel k aliased), (kdel k given). split; [|assumption].
-        apply mem_In in Em. apply replace_linv; try assumption; try lia.
+      * apply mem_In in Em. pose proof (li_nd_pool _ _ _ I) as Np.
+        apply replace_linv; try assumption; try lia.
         -- intros k' E. apply (li_pool _ _ _ I k'). now rewrite E.
         -- now apply (li_pc _ _ _ I).
         -- now apply (li_po _ _ _ I).
-        -- intros Hin. apply remove_id_In in Hin. tauto.
+        -- intros Hin. apply (remove_one_In id id _ Np) in Hin. tauto.
         -- now apply (li_pool_lt _ _ _ I).
-        -- intros x Hin. apply remove_id_In in Hin. tauto.
-      * exists (kdel k aliased), (kdel k given). split; [now apply fresh_linv|assumption].
-      * exists (kdel k aliased), (kdel k given). split; [now apply fresh_linv|assumption].
-    + exists aliased, given. split; assumption.
-  - (* write *) apply andb_prop in H as [Hg H]. apply negb_true_iff in Hg.
-    split.
-    + cbn. apply negb_true_iff. apply mem_false. intros Hin.
-      apply (li_cons _ _ _ I) in Hin. apply kmem_In in Hin. congruence.
-    + exists aliased, given. split; assumption.
+        -- intros x Hin. now apply remove_one_sub in Hin.
+        -- now apply remove_one_NoDup.
+      * now apply fresh_linv.
+      * now apply fresh_linv.
+    + assumption.
+  - (* write *)
+    destruct (negb (kmem k given)) eqn:Hg; [|discriminate]. injection H as <- <-.
+    apply negb_true_iff in Hg. split; [|assumption].
+    cbn. apply negb_true_iff. apply mem_false. intros Hin.
+    apply (li_cons _ _ _ I) in Hin. apply kmem_In in Hin. congruence.
+Qed.
+
+Lemma run_fn_scan acts : forall s aliased given al' gi' choices,
+  linv s aliased given -> scan_acts acts aliased given = Some (al', gi') ->
+  let '(s', ok, _) := run_fn s acts choices in ok = true /\ linv s' al' gi'.
+Proof.
+  induction acts as [|a t IH]; intros s aliased given al' gi' choices I H.
+  - cbn in H. injection H as <- <-. cbn. split; [reflexivity|assumption].
+  - cbn [scan_acts] in H. destruct (scan_step a aliased given) as [[al gi]|] eqn:Es; [|discriminate].
+    cbn [run_fn].
+    set (cr := match a, choices with OReplace _ PoolGet, c :: rest => (c, rest) | _, _ => (None, choices) end).
+    destruct cr as [c rest] eqn:Ecr.
+    destruct (step_linv s a c aliased given al gi I Es) as [Hw I'].
+    specialize (IH (oact_step s a c) al gi al' gi' rest I' H).
+    destruct (run_fn (oact_step s a c) t rest) as [[s' ok'] rest'].
+    destruct IH as [-> I'']. rewrite Hw. split; [reflexivity|assumption].
 Qed.
 
 Lemma run_fn_safe acts : forall s aliased given choices,
   linv s aliased given -> handoff_scan acts aliased given = true ->
   let '(s', ok, _) := run_fn s acts choices in ok = true /\ linv s' [] [].
 Proof.
-  induction acts as [|a t IH]; intros s aliased given choices I H.
-  - cbn [handoff_scan] in H. destruct aliased; [|discriminate]. destruct given; [|discriminate].
-    cbn. split; [reflexivity|assumption].
-  - cbn [run_fn].
-    set (cr := match a, choices with OReplace _ PoolGet, c :: rest => (c, rest) | _, _ => (None, choices) end).
-    destruct cr as [c rest] eqn:Ecr.
-    destruct (step_linv s a c aliased given t I H) as [Hw [al' [gi' [I' H']]]].
-    specialize (IH (oact_step s a c) al' gi' rest I' H').
-    destruct (run_fn (oact_step s a c) t rest) as [[s' ok'] rest'].
-    destruct IH as [-> I'']. rewrite Hw. split; [reflexivity|assumption].
+  intros s aliased given choices I H. unfold handoff_scan in H.
+  destruct (scan_acts acts aliased given) as [[al gi]|] eqn:E; [|discriminate].
+  destruct al; [|discriminate]. destruct gi; [|discriminate].
+  exact (run_fn_scan acts s aliased given [] [] choices I E).
+Qed.
+
+Lemma scan_acts_app a b : forall al gi,
+  scan_acts (a ++ b) al gi =
+  match scan_acts a al gi with Some (al', gi') => scan_acts b al' gi' | None => None end.
+Proof.
+  induction a as [|x a IH]; intros al gi; cbn [app scan_acts]; [reflexivity|].
+  destruct (scan_step x al gi) as [[al1 gi1]|]; [apply IH|reflexivity].
+Qed.
+
+Lemma klist_eqb_eq a : forall b, klist_eqb a b = true -> a = b.
+Proof.
+  induction a as [|x a IH]; intros [|y b] H; cbn in H; try discriminate; [reflexivity|].
+  apply andb_prop in H as [H1 H2]. apply bkind_eqb_eq in H1. subst. f_equal. now apply IH.
+Qed.
+
+(* a loop whose bodies all keep the scanner's state: any iterations keep it *)
+Lemma loop_scan bodies al gi :
+  forallb (body_keeps al gi) bodies = true ->
+  forall it, scan_acts (concat (map (fun i => nth i bodies []) it)) al gi = Some (al, gi).
+Proof.
+  intros Hb it. induction it as [|i it IH]; cbn [map concat]; [reflexivity|].
+  rewrite scan_acts_app.
+  assert (E : scan_acts (nth i bodies []) al gi = Some (al, gi)).
+  { destruct (Nat.lt_ge_cases i (length bodies)) as [Hl|Hg].
+    - rewrite forallb_forall in Hb. pose proof (Hb _ (nth_In bodies [] Hl)) as Hk.
+      unfold body_keeps in Hk. destruct (scan_acts (nth i bodies []) al gi) as [[al1 gi1]|]; [|discriminate].
+      apply andb_prop in Hk as [H1 H2]. apply klist_eqb_eq in H1, H2. now subst.
+    - rewrite nth_overflow by assumption. reflexivity. }
+  rewrite E. exact IH.
+Qed.
+
+(* the looped scan is sound for every unrolling *)
+Lemma lscan_unroll lp : forall al gi st,
+  lscan lp al gi = Some st -> forall its, scan_acts (unroll lp its) al gi = Some st.
+Proof.
+  induction lp as [|sg lp IH]; intros al gi st H its.
+  - cbn in *. assumption.
+  - destruct sg as [l|bodies]; cbn [lscan unroll] in *.
+    + rewrite scan_acts_app. destruct (scan_acts l al gi) as [[al1 gi1]|]; [|discriminate].
+      now apply IH.
+    + destruct (forallb (body_keeps al gi) bodies) eqn:Hb; [|discriminate].
+      destruct its as [|it its']; [now apply IH|].
+      rewrite scan_acts_app, (loop_scan bodies al gi Hb it). now apply IH.
+Qed.
+
+Lemma lpath_ok_unroll lp its : lpath_ok lp = true -> handoff_scan (call_lacts lp its) [] [] = true.
+Proof.
+  unfold lpath_ok, call_lacts, handoff_scan. intros H.
+  destruct (lscan lp [] []) as [[al gi]|] eqn:E; [|discriminate].
+  rewrite scan_acts_app, (lscan_unroll lp [] [] (al, gi) E its). exact H.
 Qed.
 
 Lemma oinit_linv : linv oinit [] [].
 Proof.
-  constructor; cbn; try (intros; contradiction); try (intros k; destruct k; lia).
-  intros k k'. destruct k, k'; cbn; congruence.
+  constructor; cbn [oinit cur outgoing consumer pool next_fresh]; try (intros; contradiction); try constructor.
+  - intros k k'. destruct k, k'; try congruence; try lia. intros H. f_equal. lia.
+  - intros k H. contradiction.
+  - intros k. destruct k; lia.
 Qed.
 
 Lemma nth_own_ok n : forallb handoff_ok own_all = true -> handoff_ok (nth n own_all []) = true.
@@ -207,37 +324,73 @@ Proof.
   - rewrite (nth_overflow own_paths [] Hg). destruct p; reflexivity.
 Qed.
 
+Lemma nth_lpath_ok n p : lpaths_ok own_lpaths = true -> lpath_ok (nth p (nth n own_lpaths []) []) = true.
+Proof.
+  intros H. unfold lpaths_ok in H. rewrite forallb_forall in H.
+  destruct (Nat.lt_ge_cases n (length own_lpaths)) as [Hl|Hg].
+  - pose proof (H _ (nth_In own_lpaths [] Hl)) as Hf. rewrite forallb_forall in Hf.
+    destruct (Nat.lt_ge_cases p (length (nth n own_lpaths []))) as [Hl'|Hg'].
+    + apply Hf. now apply nth_In.
+    + rewrite nth_overflow by assumption. reflexivity.
+  - rewrite (nth_overflow own_lpaths [] Hg). destruct p; reflexivity.
+Qed.
+
+(* the consumer hands one view back *)
+Lemma finish_linv s id :
+  linv s [] [] -> In id (consumer s) ->
+  linv {| cur := cur s; outgoing := outgoing s; consumer := remove_one id (consumer s); pool := id :: pool s;
+          next_fresh := next_fresh s |} [] [].
+Proof.
+  intros I Em. pose proof (li_nd_cons _ _ _ I) as Nc.
+  constructor; cbn [cur outgoing consumer pool next_fresh].
+  - intros k Hin. apply remove_one_sub in Hin. now apply (li_cons _ _ _ I).
+  - apply (li_out _ _ _ I).
+  - apply (li_inj _ _ _ I).
+  - intros k [E|Hin]; [|now apply (li_pool _ _ _ I k)].
+    assert (Hc : In (cur s k) (consumer s)) by (now rewrite <- E).
+    apply (li_cons _ _ _ I) in Hc. exact Hc.
+  - apply (li_cur_lt _ _ _ I).
+  - intros x Hin. apply remove_one_sub in Hin. now apply (li_cons_lt _ _ _ I).
+  - intros x [<-|Hin]; [now apply (li_cons_lt _ _ _ I)|now apply (li_pool_lt _ _ _ I)].
+  - apply (li_out_lt _ _ _ I).
+  - intros x [<-|Hin] Hc.
+    + apply (remove_one_In id id _ Nc) in Hc. tauto.
+    + apply remove_one_sub in Hc. now apply (li_pc _ _ _ I x).
+  - intros x [<-|Hin]; [now apply (li_co _ _ _ I)|now apply (li_po _ _ _ I)].
+  - intros x Hin. apply remove_one_sub in Hin. now apply (li_co _ _ _ I).
+  - apply (li_nd_out _ _ _ I).
+  - now apply remove_one_NoDup.
+  - constructor; [|apply (li_nd_pool _ _ _ I)]. intros Hp. exact (li_pc _ _ _ I id Hp Em).
+Qed.
+
+(* one event from a state between calls: safe, and the invariant holds again *)
+Lemma ostep_linv :
+  forallb handoff_ok own_all = true -> paths_ok own_paths = true -> lpaths_ok own_lpaths = true ->
+  forall s e, linv s [] [] -> snd (ostep s e) = true /\ linv (fst (ostep s e)) [] [].
+Proof.
+  intros Hok Hpok Hlok s e I. destruct e as [n choices|n p choices|n p its choices|id]; cbn [ostep].
+  - pose proof (run_fn_safe (call_acts (nth n own_all [])) s [] [] choices I (nth_own_ok n Hok)) as H.
+    destruct (run_fn s (call_acts (nth n own_all [])) choices) as [[s' ok] rest]. exact H.
+  - pose proof (run_fn_safe (call_acts (nth p (nth n own_paths []) [])) s [] [] choices I (nth_path_ok n p Hpok)) as H.
+    destruct (run_fn s (call_acts (nth p (nth n own_paths []) [])) choices) as [[s' ok] rest]. exact H.
+  - pose proof (run_fn_safe (call_lacts (nth p (nth n own_lpaths []) []) its) s [] [] choices I
+                  (lpath_ok_unroll _ its (nth_lpath_ok n p Hlok))) as H.
+    destruct (run_fn s (call_lacts (nth p (nth n own_lpaths []) []) its) choices) as [[s' ok] rest]. exact H.
+  - destruct (mem id (consumer s)) eqn:Em; [|split; [reflexivity|exact I]].
+    cbn. split; [reflexivity|]. apply mem_In in Em. now apply finish_linv.
+Qed.
+
 Theorem no_write_after_handoff :
   forallb handoff_ok own_all = true ->
   paths_ok own_paths = true ->
+  lpaths_ok own_lpaths = true ->
   forall es, orun oinit es = true.
 Proof.
-  intros Hok Hpok es.
+  intros Hok Hpok Hlok es.
   assert (G : forall s, linv s [] [] -> orun s es = true).
   { induction es as [|e es IH]; intros s I; [reflexivity|]. cbn [orun].
-    destruct e as [n choices|n p choices|id]; cbn [ostep].
-    - pose proof (run_fn_safe (nth n own_all []) s [] [] choices I (nth_own_ok n Hok)) as H.
-      destruct (run_fn s (nth n own_all []) choices) as [[s' ok] rest]. destruct H as [-> I'].
-      cbn. now apply IH.
-    - pose proof (run_fn_safe (nth p (nth n own_paths []) []) s [] [] choices I (nth_path_ok n p Hpok)) as H.
-      destruct (run_fn s (nth p (nth n own_paths []) []) choices) as [[s' ok] rest]. destruct H as [-> I'].
-      cbn. now apply IH.
-    - destruct (mem id (consumer s)) eqn:Em; [|cbn; now apply IH].
-      cbn. apply IH. apply mem_In in Em.
-      constructor; cbn [cur outgoing consumer pool next_fresh].
-      + intros k Hin. apply remove_id_In in Hin as [Hin _]. now apply (li_cons _ _ _ I).
-      + apply (li_out _ _ _ I).
-      + apply (li_inj _ _ _ I).
-      + intros k [E|Hin]; [|now apply (li_pool _ _ _ I k)].
-        assert (Hc : In (cur s k) (consumer s)) by (now rewrite <- E).
-        apply (li_cons _ _ _ I) in Hc. exact Hc.
-      + apply (li_cur_lt _ _ _ I).
-      + intros x Hin. apply remove_id_In in Hin as [Hin _]. now apply (li_cons_lt _ _ _ I).
-      + intros x [<-|Hin]; [now apply (li_cons_lt _ _ _ I)|now apply (li_pool_lt _ _ _ I)].
-      + apply (li_out_lt _ _ _ I).
-      + intros x [<-|Hin] Hc; apply remove_id_In in Hc as [Hc Hne]; [congruence|now apply (li_pc _ _ _ I x)].
-      + intros x [<-|Hin]; [now apply (li_co _ _ _ I)|now apply (li_po _ _ _ I)].
-      + intros x Hin. apply remove_id_In in Hin as [Hin _]. now apply (li_co _ _ _ I). }
+    destruct (ostep_linv Hok Hpok Hlok s e I) as [H1 H2].
+    destruct (ostep s e) as [s' ok]. cbn in H1, H2. subst ok. cbn. now apply IH. }
   apply G. exact oinit_linv.
 Qed.
 
@@ -248,7 +401,13 @@ Proof. vm_compute. reflexivity. Qed.
 Lemma own_paths_ok : paths_ok own_paths = true.
 Proof. vm_compute. reflexivity. Qed.
 
+Lemma own_lpaths_ok : lpaths_ok own_lpaths = true.
+Proof. vm_compute. reflexivity. Qed.
+
 Lemma own_paths_within : paths_within own_all own_paths = true.
+Proof. vm_compute. reflexivity. Qed.
+
+Lemma own_lpaths_within : lpaths_within own_all own_paths own_lpaths = true.
 Proof. vm_compute. reflexivity. Qed.
 
 (* the invariant behind the theorem, exported: after any event sequence that ran safely the
@@ -257,48 +416,83 @@ Proof. vm_compute. reflexivity. Qed.
 Fixpoint ofinal (s : ost) (es : list oevent) : ost :=
   match es with [] => s | e :: t => ofinal (fst (ostep s e)) t end.
 
-Lemma ofinal_linv : forallb handoff_ok own_all = true -> paths_ok own_paths = true ->
+Lemma ofinal_linv : forallb handoff_ok own_all = true -> paths_ok own_paths = true -> lpaths_ok own_lpaths = true ->
   forall es s, linv s [] [] -> linv (ofinal s es) [] [].
 Proof.
-  intros Hok Hpok es. induction es as [|e es IH]; intros s I; [exact I|].
-  cbn [ofinal]. apply IH. destruct e as [n choices|n p choices|id]; cbn [ostep].
-  - pose proof (run_fn_safe (nth n own_all []) s [] [] choices I (nth_own_ok n Hok)) as H.
-    destruct (run_fn s (nth n own_all []) choices) as [[s' ok] rest]. cbn. apply H.
-  - pose proof (run_fn_safe (nth p (nth n own_paths []) []) s [] [] choices I (nth_path_ok n p Hpok)) as H.
-    destruct (run_fn s (nth p (nth n own_paths []) []) choices) as [[s' ok] rest]. cbn. apply H.
-  - destruct (mem id (consumer s)) eqn:Em; [|exact I]. cbn. apply mem_In in Em.
-    constructor; cbn [cur outgoing consumer pool next_fresh].
-    + intros k Hin. apply remove_id_In in Hin as [Hin _]. now apply (li_cons _ _ _ I).
-    + apply (li_out _ _ _ I).
-    + apply (li_inj _ _ _ I).
-    + intros k [E|Hin]; [|now apply (li_pool _ _ _ I k)].
-      assert (Hc : In (cur s k) (consumer s)) by (now rewrite <- E).
-      apply (li_cons _ _ _ I) in Hc. exact Hc.
-    + apply (li_cur_lt _ _ _ I).
-    + intros x Hin. apply remove_id_In in Hin as [Hin _]. now apply (li_cons_lt _ _ _ I).
-    + intros x [<-|Hin]; [now apply (li_cons_lt _ _ _ I)|now apply (li_pool_lt _ _ _ I)].
-    + apply (li_out_lt _ _ _ I).
-    + intros x [<-|Hin] Hc; apply remove_id_In in Hc as [Hc Hne]; [congruence|now apply (li_pc _ _ _ I x)].
-    + intros x [<-|Hin]; [now apply (li_co _ _ _ I)|now apply (li_po _ _ _ I)].
-    + intros x Hin. apply remove_id_In in Hin as [Hin _]. now apply (li_co _ _ _ I).
+  intros Hok Hpok Hlok es. induction es as [|e es IH]; intros s I; [exact I|].
+  cbn [ofinal]. apply IH. exact (proj2 (ostep_linv Hok Hpok Hlok s e I)).
 Qed.
 
 Theorem consumer_never_holds_current :
   forall es k, ~ In (cur (ofinal oinit es) k) (consumer (ofinal oinit es)).
 Proof.
   intros es k Hin.
-  pose proof (ofinal_linv own_all_ok own_paths_ok es oinit oinit_linv) as I.
+  pose proof (ofinal_linv own_all_ok own_paths_ok own_lpaths_ok es oinit oinit_linv) as I.
   exact (li_cons _ _ _ I k Hin).
 Qed.
 
-(* the class of defect path-sensitivity is about: a path that aliases a buffer into a sequence,
-   emits it and returns without re-pointing the field is rejected, and after it - from ANY
-   state, for any buffer kind - the next write to that field hits a buffer the consumer holds *)
+(* the pool invariant: after any event sequence the views in the pool, the views the consumer
+   holds and the views of a pending sequence are pairwise different arrays, all different from
+   the arrays the parser's fields point to - so sync.Pool.Get can only hand out an array nobody
+   else holds, and Finish (one view at a time, any subset, any order) keeps it so *)
+Theorem views_pairwise_disjoint :
+  forall es, let s := ofinal oinit es in
+  NoDup (pool s ++ consumer s ++ outgoing s) /\ forall k, ~ In (cur s k) (pool s ++ consumer s).
+Proof.
+  intros es s.
+  pose proof (ofinal_linv own_all_ok own_paths_ok own_lpaths_ok es oinit oinit_linv) as I. fold s in I.
+  split.
+  - apply nodup_app; [apply (li_nd_pool _ _ _ I)| |].
+    + apply nodup_app; [apply (li_nd_cons _ _ _ I)|apply (li_nd_out _ _ _ I)|apply (li_co _ _ _ I)].
+    + intros x Hp Hin. apply in_app_or in Hin as [Hin|Hin];
+        [exact (li_pc _ _ _ I x Hp Hin)|exact (li_po _ _ _ I x Hp Hin)].
+  - intros k Hin. apply in_app_or in Hin as [Hin|Hin];
+      [exact (li_pool _ _ _ I k Hin)|exact (li_cons _ _ _ I k Hin)].
+Qed.
+
+(* the class of defect path-sensitivity is about: a path that aliases a FIELD's buffer into a
+   sequence, emits it and returns without re-pointing the field is rejected (for a pooled local
+   the same path is accepted: the local dies at the return), and after it - from ANY state, for
+   any kind - the next write through it hits a buffer the consumer holds. *)
 Theorem early_return_unsafe : forall (s : ost) (k : bkind) (choices : list (option Z)),
-  handoff_ok [OAlias k; OEmit] = false /\
+  handoff_ok [OAlias k; OEmit] = is_loc k /\
   (let '(s1, _, _) := run_fn s [OAlias k; OEmit] choices in write_safe s1 (OWrite k)) = false.
 Proof.
-  intros s k choices. split; [destruct k; reflexivity|].
-  cbn [run_fn oact_step write_safe cur outgoing consumer pool next_fresh].
-  destruct choices; cbn [write_safe cur consumer app mem existsb]; rewrite Z.eqb_refl; reflexivity.
+  intros s k choices. split.
+  - destruct k; try reflexivity. unfold handoff_ok, handoff_scan, call_acts. cbn. now rewrite Nat.eqb_refl.
+  - cbn [run_fn oact_step write_safe cur outgoing consumer pool next_fresh].
+    destruct choices; cbn [write_safe cur consumer app mem existsb]; rewrite Z.eqb_refl; reflexivity.
+Qed.
+
+(* the class of defect the multiset of views is about: a buffer is attached to the sequence,
+   the field / local is re-sliced (the SAME array under a new view) and attached again - one
+   array handed out as two buffers.  The scanner rejects it for every kind, and from ANY state:
+   the consumer gives both views back (Finish puts each into the pool), the next dispatch gets
+   the array from the pool and delivers it, the dispatch after that gets the SAME array from the
+   pool and writes into it while the consumer still holds the previous sequence. *)
+Definition carve (k : bkind) : list oact := [OAlias k; OReplace k Reslice; OAlias k; OEmit].
+Definition finish_view (s : ost) (id : Z) : ost := fst (ostep s (EFinish id)).
+
+Theorem carved_views_unsafe : forall (s : ost) (k : bkind),
+  handoff_ok (carve k) = false /\
+  (let id := cur s k in
+   let '(s1, _, _) := run_fn s (carve k) [] in
+   let s2 := finish_view (finish_view s1 id) id in
+   let '(s3, _, _) := run_fn s2 [OReplace k PoolGet; OAlias k; OEmit] [Some id] in
+   let '(s4, ok, _) := run_fn s3 [OReplace k PoolGet; OWrite k] [Some id] in ok) = false.
+Proof.
+  intros s k. split.
+  - unfold handoff_ok, handoff_scan, carve, call_acts.
+    destruct k; cbn; try reflexivity. now rewrite Nat.eqb_refl.
+  - unfold carve, finish_view.
+    cbn [run_fn oact_step write_safe cur outgoing consumer pool next_fresh ostep fst mem existsb app remove_one andb].
+    rewrite !Z.eqb_refl.
+    cbn [orb fst consumer pool cur outgoing next_fresh mem existsb remove_one oact_step app].
+    rewrite !Z.eqb_refl.
+    cbn [orb fst consumer pool cur outgoing next_fresh mem existsb remove_one oact_step app run_fn write_safe andb].
+    rewrite ?Z.eqb_refl.
+    cbn [orb fst consumer pool cur outgoing next_fresh mem existsb remove_one oact_step app run_fn write_safe andb].
+    rewrite !set_cur_same, ?Z.eqb_refl.
+    cbn [orb fst consumer pool cur outgoing next_fresh mem existsb remove_one oact_step app run_fn write_safe andb].
+    rewrite ?set_cur_same, ?Z.eqb_refl. reflexivity.
 Qed.
